@@ -110,6 +110,17 @@ def handle : Handler := fun op a => do
     | "from_config" => return encConfig (base.fromConfig repl keys markers)
     | "extend" => return encConfig (base.extend keys markers)
     | h => .error s!"unknown how {h}"
+  | "config_history" =>
+    let base ← decConfig (← field a "base")
+    let calls ← (← asArr (← field a "calls")).mapM fun c => do
+      let keys ← asOpt (asList asChars) (optField c "keys")
+      let markers ← asOpt (asList asChars) (optField c "markers")
+      let repl ← asOpt asChars (optField c "replacement")
+      match ← asStr (← field c "how") with
+      | "configure" => pure (CfgCall.configure repl keys markers)
+      | "extend" => pure (CfgCall.extend keys markers)
+      | h => throw s!"unknown how {h}"
+    return encConfig (runCalls base calls)
   | "value" =>
     let cfg ← decConfig (← field a "cfg")
     let v ← decVal (← field a "v")
